@@ -377,7 +377,7 @@ def quiet_exits(ctx, b):
     return out
 
 
-@rule('QX1', ['C13'], floor=7, template='no-reach')
+@rule('QX1', ['C13', 'C15'], floor=7, template='no-reach')
 def qx1(ctx):
     """No effect site can reach a rejecting or no-op exit."""
     n = 0
@@ -523,7 +523,7 @@ def qx4(ctx):
         ctx.missing('map-rejections', 'expected the rejecting exits of MemQueues (create, delete, get_queue*), found %d' % n)
 
 
-@rule('QX3', ['C13'], floor=7, template='instance-floor')
+@rule('QX3', ['C13', 'C15'], floor=7, template='instance-floor')
 def qx3(ctx):
     """All gates exist, each with a quiet exit on its reject edge."""
     want = {'RecordPosition': ['exists'], 'DeleteQueue': ['missing'], 'Truncate': ['exists|missing'], 'AppendRecords': ['missing', 'retry', 'past', 'empty']}
